@@ -77,8 +77,19 @@ def judge_crash(rows, stats):
             i_cmp = " ".join(impl.split(" ")[:2])      # n=… h=…
             m_cmp = model
         elif kind == "s":
+            # front end: status of every ParseTokens call and number of expressions;
+            # generator prologues: what the model refuses, LoadString must refuse
             i_cmp = field(impl, "P:")
-            m_cmp = model
+            m_cmp = field(model, "P:")
+            g = field(model, "G:")
+            if g == "G:err":
+                i_cmp += " " + field(impl, "L:")
+                m_cmp += " L:cerr"
+                st["prologue_refused"] = st.get("prologue_refused", 0) + 1
+            elif g == "G:ok":
+                st["prologue_accepted"] = st.get("prologue_accepted", 0) + 1
+            elif g == "G:panic":
+                m_cmp += " G:panic"
         else:
             i_cmp = m_cmp = impl
         if bad:
